@@ -62,6 +62,9 @@ type Report struct {
 	Assumptions []string
 	Exhaustive  bool
 	notExh      []string
+	sums        map[string]int64
+	consist     map[string]string
+	DropMeta    bool              // WritePartial leaves out Extra/Samples/Rule/Assumptions (non-lead shard of an isolated check)
 	knownKeys   map[string]string // key -> text for this property
 	harnessErr  []string
 }
@@ -195,6 +198,32 @@ func (r *Report) HarnessError(msg string) {
 
 func (r *Report) Set(k string, v interface{}) { r.mu.Lock(); r.Extra[k] = v; r.mu.Unlock() }
 
+// Consistent records a value that every shard process of a check must compute identically (e.g. the hash of its
+// ordered case list: shards split the list by index, so differing lists would silently skip or repeat cases); a
+// disagreement found while merging is a harness error.
+func (r *Report) Consistent(k, v string) {
+	r.mu.Lock()
+	defer r.mu.Unlock()
+	if r.consist == nil {
+		r.consist = map[string]string{}
+	}
+	if old, ok := r.consist[k]; ok && old != v {
+		r.harnessErr = append(r.harnessErr, fmt.Sprintf("shards disagree on %s: %s vs %s (nondeterministic case generation)", k, old, v))
+	}
+	r.consist[k] = v
+}
+
+// Add accumulates a count that every shard process contributes to (summed when partial reports are merged, kept
+// for non-lead shards too); it ends up in the evidence next to the values of Set.
+func (r *Report) Add(k string, n int64) {
+	r.mu.Lock()
+	if r.sums == nil {
+		r.sums = map[string]int64{}
+	}
+	r.sums[k] += n
+	r.mu.Unlock()
+}
+
 func (r *Report) Assume(s ...string) {
 	r.mu.Lock()
 	r.Assumptions = append(r.Assumptions, s...)
@@ -260,6 +289,9 @@ func (r *Report) Finish() int {
 	for k, v := range r.Extra {
 		cov[k] = v
 	}
+	for k, v := range r.sums {
+		cov[k] = v
+	}
 	cov["evaluations"] = r.evals.Load()
 	cov["distinct_nontrivial"] = int64(len(r.distinct)) + r.distinctAdd
 	cov["outcomes_distinct"] = len(r.outcomes)
@@ -311,13 +343,21 @@ type Partial struct {
 	Extra       map[string]interface{}
 	NotExh      []string
 	HarnessErr  []string
+	Rule        string
+	Assumptions []string
+	Sums        map[string]int64
+	Consist     map[string]string
 }
 
 func (r *Report) WritePartial(path string) error {
 	r.mu.Lock()
 	defer r.mu.Unlock()
+	if r.DropMeta {
+		// a non-lead shard of an isolated check computed the same descriptive fields as the lead shard
+		r.Extra, r.samples, r.Rule, r.Assumptions = map[string]interface{}{}, nil, "", nil
+	}
 	p := Partial{Evals: r.evals.Load(), DistinctAdd: r.distinctAdd, Samples: r.samples, Viol: r.viol, ViolCount: r.violCount,
-		Known: r.known, KnownCount: r.knownCount, Extra: r.Extra, NotExh: r.notExh, HarnessErr: r.harnessErr}
+		Known: r.known, KnownCount: r.knownCount, Extra: r.Extra, NotExh: r.notExh, HarnessErr: r.harnessErr, Rule: r.Rule, Assumptions: r.Assumptions, Sums: r.sums, Consist: r.consist}
 	for k := range r.distinct {
 		p.Distinct = append(p.Distinct, k)
 	}
@@ -385,6 +425,27 @@ func (r *Report) MergePartial(path string) error {
 		r.notExh = append(r.notExh, p.NotExh...)
 	}
 	r.harnessErr = append(r.harnessErr, p.HarnessErr...)
+	for k, v := range p.Consist {
+		if r.consist == nil {
+			r.consist = map[string]string{}
+		}
+		if old, ok := r.consist[k]; ok && old != v {
+			r.harnessErr = append(r.harnessErr, fmt.Sprintf("shards disagree on %s: %s vs %s (nondeterministic case generation)", k, old, v))
+		}
+		r.consist[k] = v
+	}
+	for k, v := range p.Sums {
+		if r.sums == nil {
+			r.sums = map[string]int64{}
+		}
+		r.sums[k] += v
+	}
+	if r.Rule == "" {
+		r.Rule = p.Rule
+	}
+	if len(r.Assumptions) == 0 {
+		r.Assumptions = p.Assumptions
+	}
 	return nil
 }
 
